@@ -92,6 +92,10 @@ def run_shard(spec, tier, seed):
                 sig = (R.sysname(s_self), R.sysname(s_other) if s_other else "-", order or "-")
                 try:
                     got = E.eval_mp(op, self_l, args)
+                except R.NotRepresentable:
+                    # the monitor's own readout: the result (e.g. the zero vector in theta storage) has no canonical form
+                    res.count("skip_result_not_representable")
+                    continue
                 except Exception as e:  # an exception on in-domain operands is itself an observation
                     outcomes.append((sig, self_l, args, ("exc", type(e).__name__, str(e)[:200])))
                     continue
@@ -225,6 +229,8 @@ def _float64_layer(op, dim, odims, tier, seed, res):
             res.evaluations += 1
             try:
                 outs.append((sig, self_l, args, ("ok", E.eval_obj(op, self_l, args))))
+            except R.NotRepresentable:
+                continue
             except Exception as e:
                 outs.append((sig, self_l, args, ("exc", type(e).__name__, str(e)[:200])))
         bases = {}
